@@ -115,6 +115,7 @@ def struct_mutants(rnd, buf):
         emit("swapindex", e2)
         dd = ref.digest(h.hash_type, nb[:sum(e["clen"] for e in E)])
         emit("swapboth", e2, newbody=nb, data_digest=dd if not (h.flags & 4) else h.data_digest)
+        emit("swapboth-stale-datadigest", e2, newbody=nb)      # only the whole-data checksum can tell
     emit("comp0", comp_type=0); emit("comp2", comp_type=2); emit("comp1", comp_type=1)
     emit("flags4", flags=h.flags ^ 4)
     emit("count+1", count=n + 1); emit("count-1", count=max(0, n - 1))
@@ -130,6 +131,10 @@ def struct_mutants(rnd, buf):
         out.append(("bodyzero", buf[:h.hdr_total] + bytes(len(body))))
         out.append(("bodylong", buf + b"trailing garbage"))
         out.append(("nobody", buf[:h.hdr_total]))
+    # the other identifier on a sample of the mutants (the header checksum is indifferent to it)
+    for (nm, mb) in list(out):
+        if nm in ("swapboth-stale-datadigest", "datadigest", "swapbody", "bodytrunc") or rnd.random() < 0.08:
+            out.append((nm + "+zhr", b"\0ZHR1" + mb[5:]))
     # detached header forms
     out.append(("detached", b"\0ZHR1" + buf[5:h.hdr_total + E[0]["clen"]]))
     out.append(("detached-nodict", b"\0ZHR1" + buf[5:h.hdr_total]))
